@@ -20,7 +20,7 @@ def run_dial_task():
         k(p, Sym('connect_res_' + call.short.split('::')[-1], 'Result<endpoint::Connecting, anyhow::Error>'))
 
     def m_hs(ex, p, call, k):
-        p.events.append(Event('handshake', 'handshake', (call.args[0],)))
+        p.events.append(Event('handshake', 'handshake', (ex.deref(p, call.args[0]),)))      # by value or by reference
         k(p, Sym('hs_future', 'HandshakeFuture'))
     ex = e2.executor('anemo', [(r'Endpoint::connect(_with_expected_peer_id)?$', m_connect), (r'(^|::)handshake$', m_hs)] + timeout_models(), max_depth=5)
     parent = find_method(ex.prog, 'ConnectionManager', 'dial_peer_task')
@@ -74,14 +74,14 @@ def ob_dial_task(report, prop):
                 kinds.add(c.name)
                 if c.name == 'connect_with_expected_peer_id':
                     pid = c.args[1]
-                    if not (isinstance(pid, z3.ExprRef) and re.fullmatch(r'gen\.\d+(\.\*)?@Some\.0', str(pid))):
+                    if not (isinstance(pid, z3.ExprRef) and re.fullmatch(r'gen\.\d+(\.\d+)*(\.\*)?@Some\.0', str(pid))):
                         return bad(f'expected identity passed to the endpoint is {vrepr(pid)}, not the caller\'s peer id', 'dial-expected-id', r)
-                    src = re.match(r'(gen\.\d+(\.\*)?)@Some', str(pid)).group(1)
+                    src = re.match(r'(gen\.\d+(?:\.\d+)*(\.\*)?)@Some', str(pid)).group(1)
                     if not any(f'{src}.discr == 1' in str(z3.simplify(cnd)) for cnd in r.pc):
                         return bad('connect_with_expected_peer_id used although no identity was requested', 'dial-expected-id-none', r)
                 else:
                     # plain connect only when no identity was requested
-                    if not any(re.search(r'gen\.\d+(\.\*)?\.discr == 0', str(z3.simplify(cnd))) for cnd in r.pc):
+                    if not any(re.search(r'gen\.\d+(\.\d+)*(\.\*)?\.discr == 0', str(z3.simplify(cnd))) for cnd in r.pc):
                         return bad('plain connect() used although an expected identity was given', 'dial-ignores-expected-id', r)
             if (isinstance(cr, Agg) and cr.variant == 'Ok') or isinstance(cr, Sym):
                 # the task reports (possible) success
@@ -91,7 +91,9 @@ def ob_dial_task(report, prop):
                 if not re.fullmatch(r'poll\(connect_res_\w+@Ok\.0\)#1@Ok\.0', vname(conn)):
                     return bad(f'handshake is run on {vrepr(conn)}, not on the connection just established', 'dial-ack-wrong-conn', r)
                 inner = cr.fields[0] if isinstance(cr, Agg) else cr
-                if not vname(inner).startswith('poll(hs_future)#'):
+                # the reported connection is what the handshake returned, or the very connection it was run on after it returned Ok
+                acked = vname(inner) == vname(conn) and any(re.search(r'poll\(hs_future\)#\d+\.discr == 0', str(z3.simplify(c))) for c in r.pc)
+                if not vname(inner).startswith('poll(hs_future)#') and not acked:
                     return bad(f'dial result {vrepr(cr)} is not the outcome of the handshake', 'dial-result-not-ack', r)
                 n_ok += 1
         if not n_ok or kinds != {'connect', 'connect_with_expected_peer_id'}:
